@@ -28,6 +28,22 @@ class PyTup:
         self.is_list = is_list
 
 
+class PyDict:
+    """python dict literal / comprehension with constant keys, not yet typed (coerced to a record on assignment)"""
+    __slots__ = ("items",)
+
+    def __init__(self, items):
+        self.items = dict(items)
+
+
+class PyIte:
+    """conditional between two literals whose common type is fixed later (by coercion)"""
+    __slots__ = ("c", "a", "b")
+
+    def __init__(self, c, a, b):
+        self.c, self.a, self.b = c, a, b
+
+
 class PyFn:
     """python-level callable known to the executor (spec function, lambda, builtin, contract)"""
 
@@ -48,7 +64,7 @@ NONE_V = V(NONE, z3.BoolVal(True))
 
 
 def lift(c):
-    if isinstance(c, (V, PyTup, PyFn, PyConstObj)):
+    if isinstance(c, (V, PyTup, PyFn, PyConstObj, PyDict, PyIte)):
         return c
     if c is None:
         return NONE_V
@@ -82,6 +98,11 @@ def seq_unit(ty, term):
 def coerce(val, ty):
     """convert a value to type ty (building constructor terms); raises Unsupported if impossible"""
     val = lift(val)
+    if isinstance(val, PyIte):
+        a, b = coerce(val.a, ty), coerce(val.b, ty)
+        if ty is NONE:
+            return NONE_V
+        return V(ty, z3.If(val.c, a.t, b.t))
     if isinstance(val, V):
         if val.ty is ty:
             return val
@@ -101,6 +122,18 @@ def coerce(val, ty):
         if isinstance(ty, SeqT) and isinstance(val.ty, SeqT) and val.ty.elem is ty.elem:
             return V(ty, val.t)
         raise Unsupported("cannot coerce %s to %s" % (val.ty, ty))
+    if isinstance(val, PyDict):
+        if isinstance(ty, RecT):
+            kw = {}
+            for k, v in val.items.items():
+                f = ty.field_of_key(k)
+                if f is None:
+                    raise Unsupported("dict key %r is not a field of %s" % (k, ty))
+                kw[f] = coerce(v, ty.fields[f]).t
+            if set(kw) != set(ty.fields):
+                raise Unsupported("dict literal does not give every field of %s" % ty)
+            return V(ty, ty.mk(**kw))
+        raise Unsupported("cannot coerce dict literal to %s" % ty)
     if isinstance(val, PyTup):
         if isinstance(ty, TupleT):
             if len(val.items) != len(ty.elems):
@@ -188,12 +221,12 @@ def unify(a, b):
         if isinstance(b.ty, UnionT) and b.ty.tag_of_type(a.ty) is not None:
             return coerce(a, b.ty), b
         return None
-    if isinstance(a, V) and isinstance(b, PyTup):
+    if isinstance(a, V) and isinstance(b, (PyTup, PyDict, PyIte)):
         try:
             return a, coerce(b, a.ty)
         except Unsupported:
             return None
-    if isinstance(b, V) and isinstance(a, PyTup):
+    if isinstance(b, V) and isinstance(a, (PyTup, PyDict, PyIte)):
         r = unify(b, a)
         return (r[1], r[0]) if r else None
     return None
@@ -230,6 +263,8 @@ def ite(c, a, b):
         return PyTup([ite(c, x, y) for x, y in zip(a.items, b.items)], a.is_list)
     u = unify(a, b)
     if u is None:
+        if isinstance(a, (PyTup, PyDict, PyIte)) and isinstance(b, (PyTup, PyDict, PyIte)):
+            return PyIte(c, a, b)
         raise Unsupported("conditional merge of %r and %r" % (a, b))
     if u[0].ty is NONE:
         return NONE_V
@@ -355,10 +390,12 @@ def concat(a, b):
     a, b = lift(a), lift(b)
     if isinstance(a, PyTup) and isinstance(b, PyTup):
         return PyTup(a.items + b.items, a.is_list)
-    if isinstance(a, PyTup):
+    if isinstance(a, (PyTup, PyIte)) and isinstance(b, V):
         a = coerce(a, b.ty)
-    if isinstance(b, PyTup):
+    if isinstance(b, (PyTup, PyIte)) and isinstance(a, V):
         b = coerce(b, a.ty)
+    if not (isinstance(a, V) and isinstance(b, V)):
+        raise Unsupported("concatenation of two untyped conditionals")
     if a.ty is not b.ty:
         raise Unsupported("concat %s + %s" % (a.ty, b.ty))
     if a.ty is STR or isinstance(a.ty, SeqT):
